@@ -338,6 +338,17 @@ impl<Fut> fmt::Debug for FuturesUnordered<Fut> {
     }
 }
 
+#[cfg(feature = "verif")]
+impl<F> FuturesUnordered<F> {
+    /// Verification hook: internal group layout `(cursor, [(capacity, len)])`.
+    pub fn verif_layout(&self) -> crate::verif::Layout {
+        (
+            self.poll_next,
+            self.groups.iter().map(|g| (g.capacity(), g.len())).collect(),
+        )
+    }
+}
+
 #[cfg(test)]
 mod tests {
     use super::*;
